@@ -43,6 +43,13 @@ let handle kind a =
                | Some cs -> Buffer.add_string b (" Q:" ^ fmt_chunks cs))
           | _ -> failwith "query") (split_on ';' a.(5));
       Some (Buffer.contents b)
+  | "aend" ->
+      (* start ("-" = unmapped) ; cigar kind:len,... with BAM kind codes *)
+      let start = if a.(0) = "-" then None else Some (n_of_dec a.(0)) in
+      let cigar = if a.(1) = "_" then [] else
+        List.map (fun p -> match split_on ':' p with
+          | [k; l] -> (n_of_dec k, n_of_dec l) | _ -> failwith "op") (split_on ',' a.(1)) in
+      Some (match alignment_end start cigar with ENone -> "-" | EErr -> "Err" | EPos p -> dec_of_n p)
   | _ -> None
 
 let () = run_driver handle
